@@ -478,4 +478,7 @@ def selftest(seed: int) -> int:
     if len(b1) <= len(b0):
         print("selftest: byte-swapped load accepted"); ok = False
     print("selftest C11:", "ok" if ok else "FAILED", "(baseline rejected steps:", len(b0), ")")
+    from checks import ext_uart
+    if ext_uart.selftest(seed) != 0:
+        ok = False
     return 0 if ok else 2
